@@ -154,6 +154,77 @@ func checkC08(c *Check) {
 			r1.Decide(len(bad) == 0, key, token.NoPos, "each slot receives its own deep copy inside the fill loop", strings.Join(uniq(bad), "; "))
 		}
 	}
+	// for-each: the loop walks its own copy of the iterated value (or the claimed temporary), never the variable itself
+	for _, jb := range skelJobs(L) {
+		if !strings.HasPrefix(jb.key, "VisitForRangeStmt over ") {
+			continue
+		}
+		for _, temp := range []bool{false, true} {
+			var bad []string
+			runs := 0
+			in.RunAll(32, func() {
+				cobj := mk()
+				node := jb.node()
+				node.get("In").(*Obj).set("temp", boolV(temp))
+				in.CallFunc(L.Fn("src/compiler.(*compiler)."+jb.method), cobj, []Val{node})
+				for _, e := range in.Events {
+					if e.Kind == "cerr" || e.Kind == "panic" {
+						return
+					}
+				}
+				runs++
+				var operand *IRVal
+				owned := false
+				for _, e := range in.Events {
+					switch e.Kind {
+					case "evaluate:In":
+						operand, _ = e.Data[1].(*IRVal)
+					case "deepCopy":
+						if src, ok := e.Data[1].(*IRVal); ok && src == operand {
+							owned = true
+						}
+					case "claim":
+						if v, ok := e.Data[0].(*IRVal); ok && v == operand {
+							owned = true
+						}
+					}
+				}
+				if !owned {
+					bad = append(bad, "the iterated value is neither copied nor claimed into the loop's own storage")
+				}
+				// every address computed for the walk must be based on the loop's own storage
+				for _, e := range in.Events {
+					var vals []*IRVal
+					for _, d := range e.Data {
+						if v, ok := d.(*IRVal); ok {
+							vals = append(vals, v)
+						}
+					}
+					for _, v := range vals {
+						var walk func(x *IRVal)
+						walk = func(x *IRVal) {
+							if x == nil {
+								return
+							}
+							if x.Op == "getelementptr" && len(x.Args) > 0 && x.Args[0] == operand && e.Kind != "deepCopy" {
+								bad = append(bad, in.L.Pos(e.Pos)+": the loop reads the fields of the iterated operand itself")
+							}
+							for _, a := range x.Args {
+								walk(a)
+							}
+						}
+						walk(v)
+					}
+				}
+			})
+			key := fmt.Sprintf("compiler.(*compiler).%s|iterated value temporary=%v", jb.key, temp)
+			if runs == 0 {
+				r1.Und(key, token.NoPos, "not evaluated")
+			} else {
+				r1.Decide(len(bad) == 0, key, token.NoPos, "the loop walks its own copy / the claimed temporary", strings.Join(uniq(bad), "; ")+": a body that changes the iterated variable (directly, through a callee or a Referenz) changes what the loop visits, or the loop reads released memory")
+			}
+		}
+	}
 	// for-each: the loop variable receives a deep copy of the element
 	for _, jb := range skelJobs(L) {
 		if jb.key != "VisitForRangeStmt over Text Liste" {
@@ -241,7 +312,7 @@ func checkC08Annotator(c *Check, L *Loaded) {
 		r2.Decide(found, key, token.NoPos, "reports p", "an assignment to '"+n+"' (p a parameter) is not attributed to p: p stays 'constant', at -O2 the caller passes its own value without copying it and the callee's change shows in the caller's variable")
 	}
 
-	r3 := c.Rule("R8.3", "assignments and hand-overs to parameters not known to be constant clear the constant mark", 4)
+	r3 := c.Rule("R8.3", "assignments and hand-overs to parameters not known to be constant clear the constant mark; functions whose body the analysis does not see are not marked constant", 6)
 	noop := func(in *Interp, pkg *packages.Package, call *ast.CallExpr, recv Val, args []Val) (Val, bool) {
 		return TupleV(nil), true
 	}
@@ -299,6 +370,88 @@ func checkC08Annotator(c *Check, L *Loaded) {
 			r3.Decide(okAll, "annotators.(*ConstFuncParamAnnotator).VisitAssignStmt|assignment to p", token.NoPos, "p marked as modified, q untouched", "an assignment to the parameter p does not clear its constant mark (or clears another parameter's)")
 		}
 	}
+	// functions whose body is not visited under their own declaration must not be marked constant
+	for _, form := range []string{"forward declaration (body given later)", "instantiation of a generic function"} {
+		form := form
+		var marks []bool
+		undecided := false
+		in.Models["ast.(*Ast).AddAttachement"] = func(in *Interp, pkg *packages.Package, call *ast.CallExpr, recv Val, args []Val) (Val, bool) {
+			if d, ok := args[0].(*Obj); ok && d.get("tracked") != nil {
+				if t, known := truth(d.get("tracked")); known && t {
+					if m, ok := args[1].(*Obj); ok {
+						if mv, ok := m.get("IsConst").(MapV); ok {
+							for i, k := range mv.Keys {
+								if sk, ok := k.(StrV); ok && string(sk) == "x" {
+									if b, known := truth(mv.Vals[i]); known {
+										marks = append(marks, b)
+									} else {
+										undecided = true
+									}
+								}
+							}
+						} else {
+							undecided = true
+						}
+					}
+				}
+			}
+			return TupleV(nil), true
+		}
+		in.Models["ast.(*Ast).GetMetadataByKind"] = func(in *Interp, pkg *packages.Package, call *ast.CallExpr, recv Val, args []Val) (Val, bool) {
+			return TupleV{NilV{}, boolV(false)}, true
+		}
+		runs := 0
+		in.RunAll(32, func() {
+			a := mkAnn()
+			target := mkFuncDecl(&DT{Kind: "TEXT"}, &DT{Kind: "ZAHL"})
+			target.get("Parameters").(SliceV).Elems[0].(*Obj).get("Name").(*Obj).set("Literal", StrV("x"))
+			target.set("tracked", boolV(true))
+			ext := newObj("token.Token")
+			ext.set("Type", tokenConst(L, "ILLEGAL"))
+			target.set("ExternFile", ext)
+			symtab := newObj("ast.SymbolTable")
+			body := newObj("ast.BlockStmt")
+			body.set("Symbols", symtab)
+			var node *Obj
+			if strings.HasPrefix(form, "forward") {
+				target.set("Body", NilV{})
+				target.set("Generic", NilV{})
+				def := newObj("ast.FuncDef")
+				def.set("Body", body)
+				target.set("Def", def)
+				node = target
+			} else {
+				target.set("Body", body)
+				target.set("Def", NilV{})
+				target.set("Generic", NilV{})
+				gen := mkFuncDecl(&DT{Kind: "GENERIC", Name: "T"}, &DT{Kind: "ZAHL"})
+				gi := newObj("ast.GenericFuncInfo")
+				gi.set("Instantiations", MapV{Keys: []Val{newObj("ast.Module")}, Vals: []Val{SliceV{Elems: []Val{target}}}})
+				gen.set("Generic", gi)
+				gen.set("Body", NilV{})
+				gen.set("Def", NilV{})
+				gen.set("ExternFile", ext)
+				node = gen
+			}
+			in.CallFunc(L.Fn("src/ast/annotators.(*ConstFuncParamAnnotator).VisitFuncDecl"), a, []Val{node})
+			runs++
+		})
+		key := "annotators.(*ConstFuncParamAnnotator).VisitFuncDecl|" + form
+		switch {
+		case runs == 0 || undecided:
+			r3.Und(key, token.NoPos, "the marks attached for this form could not be evaluated")
+		case len(marks) == 0:
+			r3.Bad(key, token.NoPos, "no marks are attached for the parameters of a "+form+": the code generator finds nothing and ... (no verdict recorded)")
+		default:
+			anyConst := false
+			for _, m := range marks {
+				if m {
+					anyConst = true
+				}
+			}
+			r3.Decide(!anyConst, key, token.NoPos, "parameters are assumed not constant", "the parameters of a "+form+" are marked constant although its body is not analysed under this declaration: at -O2 the caller passes its variable uncopied, the callee assigns to the parameter and changes or releases the caller's value")
+		}
+	}
 	// hand-over
 	for _, tc := range []struct {
 		name      string
@@ -343,6 +496,7 @@ func checkC08Annotator(c *Check, L *Loaded) {
 func checkC08Calls(c *Check, L *Loaded) {
 	r4 := c.Rule("R8.4", "a borrowed (copy-elided) argument is storage the callee cannot reach in another way: not the target of a Referenz argument of the same call, not a global variable", 6)
 	r5 := c.Rule("R8.5", "a Referenz parameter receives the caller's storage itself", 3)
+	checkC08PartReference(c, L, r4)
 	T := &DT{Kind: "TEXT"}
 	for _, level := range []int{0, 1, 2} {
 		in, mk := newGeneratorInterp(L)
@@ -723,5 +877,154 @@ func checkC08DeepCopies(c *Check, L *Loaded) {
 		} else {
 			r.Decide(len(bad) == 0, key, token.NoPos, "primitive fields stored, non-primitive fields deep-copied field by field", strings.Join(uniq(bad), "; ")+": a copied Kombination shares blocks with the original")
 		}
+	}
+}
+
+// R8.4 (continued): the Referenz argument is a part of the variable that is passed by value (an element, a field): its type
+// differs from the variable's, it still points into it.
+func checkC08PartReference(c *Check, L *Loaded, r4 *Rule) {
+	T := &DT{Kind: "TEXT"}
+	LT := &DT{Kind: "LIST", Elem: T}
+	for _, level := range []int{0, 2} {
+		in, mk := newGeneratorInterp(L)
+		cfg := callCfg{level: level, konst: true, ret: &DT{Kind: "ZAHL"}}
+		decl := newObj("ast.FuncDecl")
+		mkParam := func(name string, t *DT, ref bool) *Obj {
+			pn := newObj("token.Token")
+			pn.set("Literal", StrV(name))
+			pt := newObj("ddptypes.ParameterType")
+			pt.set("Type", TypeV{t})
+			pt.set("IsReference", boolV(ref))
+			p := newObj("ast.ParameterInfo")
+			p.set("Name", pn)
+			p.set("Type", pt)
+			return p
+		}
+		decl.set("Parameters", SliceV{Elems: []Val{mkParam("a", LT, false), mkParam("b", T, true)}})
+		decl.set("ReturnType", TypeV{cfg.ret})
+		callModels(in, &cfg, decl)
+		in.Models["ast.(*Ast).GetMetadataByKind"] = func(in *Interp, pkg *packages.Package, call *ast.CallExpr, recv Val, args []Val) (Val, bool) {
+			meta := newObj("annotators.ConstFuncParamMeta")
+			meta.set("IsConst", MapV{Keys: []Val{StrV("a"), StrV("b")}, Vals: []Val{boolV(true), boolV(false)}})
+			return TupleV{meta, boolV(true)}, true
+		}
+		storage := &IRVal{Op: "operand", Src: "l", Class: "ptr", Elem: toGen(LT)}
+		ldecl := newObj("ast.VarDecl")
+		ldecl.set("Type", TypeV{LT})
+		ldecl.set("IsGlobal", boolV(false))
+		prevEval := in.Models["compiler.(*compiler).evaluate"]
+		in.Models["compiler.(*compiler).evaluate"] = func(in *Interp, pkg *packages.Package, call *ast.CallExpr, recv Val, args []Val) (Val, bool) {
+			v, h := prevEval(in, pkg, call, recv, args)
+			if n, ok := args[0].(*Obj); ok {
+				if d, ok := n.get("Declaration").(*Obj); ok && d == ldecl {
+					if tv, ok := v.(TupleV); ok && len(tv) == 3 {
+						return TupleV{storage, tv[1], boolV(false)}, h
+					}
+				}
+			}
+			return v, h
+		}
+		in.Models["compiler.(*scope).lookupVar"] = func(in *Interp, pkg *packages.Package, call *ast.CallExpr, recv Val, args []Val) (Val, bool) {
+			w := newObj("varwrapper")
+			w.set("val", storage)
+			w.set("typ", toGen(LT))
+			w.set("isRef", boolV(false))
+			return w, true
+		}
+		aliased, seen := false, false
+		in.RunAll(64, func() {
+			cobj := mk()
+			cobj.set("optimizationLevel", ConstV{V: constantInt(level), T: intType()})
+			fw := newObj("funcWrapper")
+			fw.set("funcDecl", decl)
+			fw.set("irFunc", &IRFuncV{Name: "callee"})
+			cobj.set("functions", MapV{Keys: []Val{StrV("f")}, Vals: []Val{fw}})
+			e := newObj("ast.FuncCall")
+			e.set("Func", decl)
+			al := exprNode("l", LT)
+			al.Kind = "ast.Ident"
+			al.set("Declaration", ldecl)
+			bl := exprNode("l", LT)
+			bl.Kind = "ast.Ident"
+			bl.set("Declaration", ldecl)
+			ix := newObj("ast.Indexing")
+			ix.set("Lhs", bl)
+			ix.set("Index", exprNode("i", &DT{Kind: "ZAHL"}))
+			e.set("Args", MapV{Keys: []Val{StrV("a"), StrV("b")}, Vals: []Val{al, ix}})
+			in.CallFunc(L.Fn("src/compiler.(*compiler).VisitFuncCall"), cobj, []Val{e})
+			for _, ev := range in.Events {
+				if ev.Kind == "cerr" || ev.Kind == "panic" {
+					return
+				}
+			}
+			for _, ev := range in.Events {
+				if ev.Kind == "call" && ev.Msg == "callee" && len(ev.Data) == 3 {
+					seen = true
+					av, _ := ev.Data[1].(*IRVal)
+					bv, _ := ev.Data[2].(*IRVal)
+					for av != nil && av.Op == "bitcast" && len(av.Args) == 1 {
+						av = av.Args[0]
+					}
+					if av == storage && baseOperand(bv) == storage {
+						aliased = true
+					}
+				}
+			}
+		})
+		// variant: the other argument is evaluated by a call (which could take l by reference and change it)
+		{
+			decl2 := newObj("ast.FuncDecl")
+			decl2.set("Parameters", SliceV{Elems: []Val{mkParam("a", LT, false), mkParam("n", &DT{Kind: "ZAHL"}, false)}})
+			decl2.set("ReturnType", TypeV{cfg.ret})
+			callModels(in, &cfg, decl2)
+			in.Models["ast.(*Ast).GetMetadataByKind"] = func(in *Interp, pkg *packages.Package, call *ast.CallExpr, recv Val, args []Val) (Val, bool) {
+				meta := newObj("annotators.ConstFuncParamMeta")
+				meta.set("IsConst", MapV{Keys: []Val{StrV("a"), StrV("n")}, Vals: []Val{boolV(true), boolV(true)}})
+				return TupleV{meta, boolV(true)}, true
+			}
+			borrowed, seen2 := false, false
+			in.RunAll(64, func() {
+				cobj := mk()
+				cobj.set("optimizationLevel", ConstV{V: constantInt(level), T: intType()})
+				fw := newObj("funcWrapper")
+				fw.set("funcDecl", decl2)
+				fw.set("irFunc", &IRFuncV{Name: "callee"})
+				cobj.set("functions", MapV{Keys: []Val{StrV("f")}, Vals: []Val{fw}})
+				e := newObj("ast.FuncCall")
+				e.set("Func", decl2)
+				al := exprNode("l", LT)
+				al.Kind = "ast.Ident"
+				al.set("Declaration", ldecl)
+				nested := exprNode("nested", &DT{Kind: "ZAHL"})
+				nested.Kind = "ast.FuncCall"
+				e.set("Args", MapV{Keys: []Val{StrV("a"), StrV("n")}, Vals: []Val{al, nested}})
+				in.CallFunc(L.Fn("src/compiler.(*compiler).VisitFuncCall"), cobj, []Val{e})
+				for _, ev := range in.Events {
+					if ev.Kind == "cerr" || ev.Kind == "panic" {
+						return
+					}
+				}
+				for _, ev := range in.Events {
+					if ev.Kind == "call" && ev.Msg == "callee" && len(ev.Data) == 3 {
+						seen2 = true
+						if av, ok := ev.Data[1].(*IRVal); ok && av == storage {
+							borrowed = true
+						}
+					}
+				}
+			})
+			k2 := fmt.Sprintf("compiler.(*compiler).VisitFuncCall|-O%d f(l, g(...)): value parameter judged constant, another argument evaluated by a call", level)
+			if !seen2 {
+				r4.Und(k2, token.NoPos, "call not observed")
+			} else {
+				r4.Decide(!borrowed, k2, token.NoPos, "the value parameter receives its own copy", "the variable itself is passed although a later argument is evaluated by a call: if that call changes the variable (it can take it by Referenz), the callee sees the changed value where the language promises the value at the time of the call")
+			}
+		}
+		key := fmt.Sprintf("compiler.(*compiler).VisitFuncCall|-O%d f(l, l an der Stelle i): value parameter judged constant, Referenz to an element", level)
+		if !seen {
+			r4.Und(key, token.NoPos, "call not observed")
+			continue
+		}
+		r4.Decide(!aliased, key, token.NoPos, "the value parameter receives its own copy", "the callee receives the caller's list as the borrowed value of a parameter it treats as constant and a Referenz to one of its elements: a write through the Referenz shows through (or releases what is read through) the value parameter")
 	}
 }
